@@ -154,7 +154,14 @@ impl<'a> IntoIterator for &'a BytesExpr {
 
 fn fixed_byte(input: &str, digits: usize, radix: u32) -> LexResult<'_, u8> {
     let (digits, rest) = take(input, digits)?;
-    match u8::from_str_radix(digits, radix) {
+    // `from_str_radix` accepts a leading `+`, which is not a digit of an escape
+    // sequence or of a hex pair: parse a lone sign instead to get its error.
+    let parsed = if digits.starts_with('+') {
+        u8::from_str_radix("+", radix)
+    } else {
+        u8::from_str_radix(digits, radix)
+    };
+    match parsed {
         Ok(b) => Ok((b, rest)),
         Err(err) => Err((LexErrorKind::ParseInt { err, radix }, digits)),
     }
